@@ -188,6 +188,8 @@ def run(res, tier, rng, table_diffs=()):
     from .. import gen2
     for d in gen2.deep_tower_programs():
         cases.append(("deep-tower", d))
+    for d in gen2.alias_multiplicity_programs():
+        cases.append(("alias-multiplicity", d))
     cases += root_matrix()
     # THE SAME CONSTRUCTOR EVALUATED AGAIN after its first value died and a collection ran: an implementation that remembers
     # "the" empty list / empty text / a small constant object somewhere the collector does not see hands out a released object
